@@ -23,6 +23,9 @@ CONTRACTED = ['phylib/io/array.py::SpikeSelector.__init__', 'phylib/io/array.py:
               'phylib/io/model.py::TemplateModel.save_spikes_subset_waveforms']
 
 
+CALLS = [0]   # number of selector calls made (reported in the notes of the result)
+
+
 def _nums(a):
     return [x.item() if hasattr(x, 'item') else x for x in np.asarray(a).ravel().tolist()]
 
@@ -77,6 +80,7 @@ def _select_clauses(times, sc, ck, configs, n_seeds, times_dtype, get_sel):
     clause (first failing configuration in the detail)."""
     pairs = _pairs(ck)
     nsp = len(sc)
+    inchunk = [_in_pairs(t, pairs) for t in times]
     groups = {}
     for i, c in enumerate(sc):
         groups.setdefault(c, []).append(i)
@@ -96,12 +100,14 @@ def _select_clauses(times, sc, ck, configs, n_seeds, times_dtype, get_sel):
     for cfg in configs:
         n, req, sub_chunks, sub_spikes = cfg['n'], cfg['req'], cfg['subset_chunks'], cfg['subset_spikes']
         elig = {}
-        for c in set(req):
+        reqset = set(req)
+        subset = None if sub_spikes is None else set(sub_spikes)
+        for c in reqset:
             e = list(groups.get(c, []))
             if sub_chunks:
-                e = [i for i in e if _in_pairs(times[i], pairs)]
-            if sub_spikes is not None:
-                e = [i for i in e if i in set(sub_spikes)]
+                e = [i for i in e if inchunk[i]]
+            if subset is not None:
+                e = [i for i in e if i in subset]
             elig[c] = e
         limited = n is not None and n > 0
         random_draw = limited and any(len(e) > n for e in elig.values())
@@ -111,6 +117,7 @@ def _select_clauses(times, sc, ck, configs, n_seeds, times_dtype, get_sel):
             ss = None if sub_spikes is None else np.array(sub_spikes, dtype=np.int64)
             out = sel(n, list(req), subset_chunks=sub_chunks, subset_spikes=ss)
             n_draws += 1
+            CALLS[0] += 1
             d = (cfg, seed, repr(out))
             is_arr = isinstance(out, np.ndarray) and out.ndim == 1 and out.dtype.kind in 'iu'
             flag(names[0], is_arr, d)
@@ -120,12 +127,12 @@ def _select_clauses(times, sc, ck, configs, n_seeds, times_dtype, get_sel):
             flag(names[2], valid, d)
             if not valid:
                 continue
-            flag(names[3], all(sc[g] in set(req) for g in got), d)
+            flag(names[3], all(sc[g] in reqset for g in got), d)
             if sub_chunks:
-                flag(names[4], all(_in_pairs(times[g], pairs) for g in got), d)
-            if sub_spikes is not None:
-                flag(names[5], all(g in set(sub_spikes) for g in got), d)
-            for c in set(req):
+                flag(names[4], all(inchunk[g] for g in got), d)
+            if subset is not None:
+                flag(names[5], all(g in subset for g in got), d)
+            for c in reqset:
                 mine = [g for g in got if sc[g] == c]
                 if not limited or len(elig[c]) <= n:
                     flag(names[6], mine == elig[c], (d, c, mine, elig[c]))
@@ -133,7 +140,7 @@ def _select_clauses(times, sc, ck, configs, n_seeds, times_dtype, get_sel):
                     flag(names[7], len(mine) == n and set(mine) <= set(elig[c]) and len(set(mine)) == n, (d, c, mine, elig[c]))
                 if c not in groups:
                     flag(names[8], mine == [], (d, c, mine))
-            known = [g for g in got if sc[g] in groups and sc[g] in set(req)]
+            known = [g for g in got if sc[g] in groups and sc[g] in reqset]
             flag(names[8], len(known) == len(got), d)
             if not req:
                 flag(names[9], got == [], d)
@@ -306,7 +313,7 @@ def enumerate_cases(ctx):
     GRIDS_B = [([0, 10], 1), ([0, 2, 4, 6], 2), ([0, 1, 3, 4, 6], 3)]
     ctx.scope('selection / counts: every cluster vector of length 1..%d over {0,2} (plus all over {0,2,5} up to length 4) x 3 '
               '(grid, n_chunks_kept) pairs with spike i at time i (spikes on bounds and in dropped chunks) x counts '
-              '{None,0,-1,1,2,3,10} x requests {[],[0],[2,0],[7],[0,7,2],[2,2],[1,5]} (unknown ids 1,7) x chunk restriction on/off '
+              '{None,0,-1,1,2,(3 thorough only),10} x requests {[],[0],[2,0],[7],[0,7,2],[2,2],[1,5]} (unknown ids 1,7) x chunk restriction on/off '
               'x subset off / two subsets (one unsorted, one with foreign ids); %d RNG seeds per configuration with a draw'
               % (LB, 5 if quick else 20))
     vecs = [list(v) for n in range(1, LB + 1) for v in itertools.product([0, 2], repeat=n)]
@@ -316,7 +323,7 @@ def enumerate_cases(ctx):
         subsets = [None, [i for i in range(nsp) if i % 3 != 1][::-1], [0, nsp - 1]]
         for cb, kept in GRIDS_B:
             configs = []
-            for n in (None, 0, -1, 1, 2, 3, 10):
+            for n in ((None, 0, -1, 1, 2, 10) if quick else (None, 0, -1, 1, 2, 3, 10)):
                 for req in REQS_B:
                     for sub_chunks in (True, False):
                         for sub in subsets:
@@ -336,6 +343,11 @@ def enumerate_cases(ctx):
                   raw=dict(n_samples=nsamp), unused_top_template=(j % 5 == 4))
         ctx.run('save_spikes_subset', {'dataset': ds, 'k': (1, 2, 5, 100)[(j // 2) % 4], 'seed': j})
 
+    def note():
+        ctx.notes.append('selector calls evaluated: %d' % CALLS[0])
+
+    if quick:
+        note()
     if not quick:
         NR = 150
         ctx.scope('seeded random larger inputs (%d): 50..400 spikes with non-decreasing times (ties, spikes on bounds), 1..8 clusters '
@@ -359,3 +371,4 @@ def enumerate_cases(ctx):
             ctx.run('select', {'times': [int(t) for t in times], 'sc': sc, 'cb': [int(x) for x in cb],
                                'kept': int(r.randint(1, 26)), 'configs': configs, 'n_seeds': 3,
                                'times_dtype': ('int64', 'uint64', 'float64')[j % 3]})
+        note()
